@@ -54,6 +54,7 @@ func NewServer(parse ParseFn, options ...OptionFn) (*Server, error) {
 // Server contains options for listening to an address.
 type Server struct {
 	closing         atomic.Bool
+	closeMu         sync.RWMutex
 	wg              sync.WaitGroup
 	logger          *slog.Logger
 	types           *pgtype.Map
@@ -187,12 +188,21 @@ func (srv *Server) serve(ctx context.Context, conn net.Conn) error {
 
 // Close gracefully closes the underlaying Postgres server.
 func (srv *Server) Close() error {
-	if srv.closing.Load() {
-		return nil
+	// NOTE: commands are admitted while holding the read lock (see
+	// consumeSingleCommand). Once the closing state has been set under the
+	// write lock no new command is able to start, and every command that has
+	// been admitted before is accounted for inside the wait group.
+	srv.closeMu.Lock()
+	first := !srv.closing.Load()
+	srv.closing.Store(true)
+	srv.closeMu.Unlock()
+
+	// NOTE: only the first caller closes the channel, closing it twice panics.
+	if first {
+		close(srv.closer)
 	}
 
-	srv.closing.Store(true)
-	close(srv.closer)
+	// NOTE: all callers wait for the running commands to finish.
 	srv.wg.Wait()
 	return nil
 }
